@@ -138,6 +138,55 @@ class TranslatorK(py2lean2.Translator2M):
         gets a Lean identifier"""
         return py2lean2.Translator2.fresh(name if name.replace("_", "") else "unused", scope)
 
+    def function_as_expression(self, fn, arg_names, ind=1):
+        """normalisation `local temporaries inlined`: a function whose body is single assignments to locals, `return`s
+        and `if`s with returning arms is translated as ONE expression with the temporaries substituted (every
+        expression of the vocabulary is pure), so a rule for a nested expression does not depend on whether its parts
+        were first given names.  Falls back to the ordinary statement-by-statement translation."""
+        self._globals = getattr(fn, "__globals__", {})
+        qual = getattr(fn, "__qualname__", "").split(".")
+        self._owner = self._globals.get(qual[0]) if len(qual) > 1 else None
+        node, _src = source_ast(fn)
+        params = [x.arg for x in node.args.posonlyargs + node.args.args + node.args.kwonlyargs]
+        for p_ in params:
+            if p_ not in arg_names:
+                raise Untranslatable("signature of %s changed: %s" % (node.name, ast.unparse(node.args)))
+
+        class Sub(ast.NodeTransformer):
+            def __init__(self, env):
+                self.env = env
+
+            def visit_Name(self, n):
+                if isinstance(n.ctx, ast.Load) and n.id in self.env:
+                    return self.env[n.id]
+                return n
+
+        def value_of(stmts, env):
+            stmts = [st for st in stmts if not (isinstance(st, ast.Expr) and isinstance(st.value, ast.Constant))
+                     and not isinstance(st, ast.Pass)]
+            if not stmts:
+                raise Untranslatable("not an expression")
+            st, rest = stmts[0], stmts[1:]
+            if isinstance(st, ast.Return) and st.value is not None:
+                return Sub(env).visit(ast.parse(ast.unparse(st.value), mode="eval").body)
+            if (isinstance(st, ast.Assign) and len(st.targets) == 1 and isinstance(st.targets[0], ast.Name)
+                    and st.targets[0].id not in params):
+                e2 = dict(env)
+                e2[st.targets[0].id] = Sub(env).visit(ast.parse(ast.unparse(st.value), mode="eval").body)
+                return value_of(rest, e2)
+            if isinstance(st, ast.If):
+                test = Sub(env).visit(ast.parse(ast.unparse(st.test), mode="eval").body)
+                return ast.IfExp(test=test, body=value_of(list(st.body) + rest, dict(env)),
+                                 orelse=value_of(list(st.orelse) + rest, dict(env)))
+            raise Untranslatable("not an expression")
+        try:
+            e = ast.fix_missing_locations(value_of(list(node.body), {}))
+        except Untranslatable:
+            return self.function(fn, arg_names, ind=ind)
+        e = ast.parse(ast.unparse(e), mode="eval").body           # parenthesisation normalised
+        text, flag = self.expr(e, dict(arg_names))
+        return "  " * ind + (text if flag == "bind" else self.r.ret.format(e=text))
+
     def function(self, fn, arg_names, ind=2, allow_unused=()):
         """as Translator2.function; remembers where `fn` lives so that helper functions of the same module / class that
         the vocabulary has no word for can be INLINED at their call sites (`inline_helper`)"""
@@ -728,7 +777,7 @@ def lin_items():
                                      float_=float_const, ret="{e}")
                 return TranslatorK(r, [])
             add("def genPcaWhitenedComponents (U : Mat k d) (sigma : Fin k → ℚ) : Mat k d :=", "0",
-                lambda TW=TW, fn=fn: TW().function(fn("whitened_components"), dict(SELF), ind=1))
+                lambda TW=TW, fn=fn: TW().function_as_expression(fn("whitened_components"), dict(SELF), ind=1))
             add("def genPcaProjectWhitened (U : Mat k d) (sigma : Fin k → ℚ) (vectorinstance : Fin d → ℚ) : Fin k → ℚ :=", "0",
                 lambda TW=TW, fn=fn: TW().function(fn("project_whitened"), dict(SELF, vector_instance="vectorinstance"), ind=1))
         if K == "Lin":
